@@ -233,7 +233,25 @@ def run_grid(case):
 
 
 # ------------------------------------------------------------------ generators
+def gen_late_shortcut(rng):
+    """a path whose arcs are listed from the far end backwards, plus a dear direct arc from the source into its middle: every round of
+    Bellman-Ford moves the improvement one arc further through parents that do not change"""
+    k = rng.randint(4, 7)
+    nodes = list(range(k + 1))
+    path = [0] + rng.sample(nodes[1:], k)
+    arcs = [[a, b, rng.randint(1, 2)] for a, b in zip(path, path[1:])]
+    arcs.reverse()
+    j = rng.randint(1, k - 2)
+    arcs.insert(rng.randint(0, len(arcs)), [0, path[j + 1], sum(a[2] for a in arcs) + rng.randint(1, 4)])
+    if rng.random() < 0.4:
+        arcs.append([0, path[1], 0])                # duplicate arc, cheaper
+    qs = [[0, path[-1], [path[-1]]], [0, path[k // 2], [path[k // 2]]]]
+    return {"n": k + 1, "edges": arcs, "wscale": 1, "labels": rng.choice(["int", "str", "big"]), "queries": qs}
+
+
 def gen_graph(rng, nmax=9, small=False):
+    if not small and rng.random() < 0.07:
+        return gen_late_shortcut(rng)
     n = rng.randint(1, 4 if small else nmax)
     neg = rng.random() < 0.35
     dens = rng.choice([0.15, 0.3, 0.5])
